@@ -12,6 +12,8 @@ Live re-tuning shards re-assign weights and intervals through the move table's
 documented attributes between two run calls and judge the second run against the new table.
 Tables also use unusual names (the empty string, '0', 'None', spaces), numpy-typed settings, and weights so small that
 they are all 'close' to each other.
+Tables are also changed while a step is in progress (weights set to zero in place, through add_move under the existing
+name, or by a new entry): no weight-zero move may be chosen from the next slot on.
 """
 from __future__ import annotations
 
@@ -31,7 +33,7 @@ ASSUMPTIONS = [
     "tables whose due moves all have weight zero while free slots remain are outside the quantifier and are not generated",
     "distribution clause decided by binomial z (|z|>5 flagged, re-measured once with 4x the steps and fresh seed; violation only if flagged again with the same sign)",
 ]
-REQUIRED = {"tables_retuned_live": 12, "steps_checked": 2000, "steps_nothing_due": 20, "zero_weight_due_steps": 50, "guard_refusals": 10, "dist_tests_resolved": 20, "min_count_steps": 200}
+REQUIRED = {"tables_retuned_live": 12, "tables_changed_in_mid_step": 300, "slots_after_a_change_in_mid_step": 3000, "steps_checked": 2000, "steps_nothing_due": 20, "zero_weight_due_steps": 50, "guard_refusals": 10, "dist_tests_resolved": 20, "min_count_steps": 200}
 SHARD_TIMEOUT = {"quick": 600, "thorough": 2400}
 
 WEIGHTS = [0.0, 1e-9, 1.0, 1.0, 10.0, 1e6, 0.3]
@@ -78,6 +80,8 @@ def plan(tier, seed):
     specs.append({"name": "guard", "mode": "guard", "seed": seed, "n": 300 if tier == "quick" else 3000})
     for j in range(4 if tier == "quick" else 16):
         specs.append({"name": f"retune{j}", "mode": "retune", "seed": seed, "j": j, "n": 4 if tier == "quick" else 8, "steps": 1500 if tier == "quick" else 6000})
+    for j in range(2 if tier == "quick" else 8):
+        specs.append({"name": f"midstep{j}", "mode": "midstep", "seed": seed, "j": j, "n": 300 if tier == "quick" else 2000})
     return specs
 
 
@@ -378,6 +382,60 @@ def run_retune(spec, rec):
                     rec.viol("C09/distribution/after-retuning", f"after the weights were re-assigned on the live simulation, free slots choose {d} with frequency off its new weight share p={pr:.4g}: z={z:.1f} (n={n}), re-measured z={f2[2]:.1f}", {"driver": kind, "table": table_sig(cycles, table), "retuned_to": table_sig(cycles, table2), "due": list(due), "move": d})
 
 
+def run_midstep(spec, rec):
+    """The table is changed while a step is in progress (between two moves the step generator hands out - the documented
+    "dynamic change in the probability of moves between moves"): one move's weight goes to zero, or every weight but
+    one does, by an in-place edit of the entry, by add_move under the existing name, or by putting a new entry into the
+    table.  Exact oracle: from the next slot on no weight-zero move is chosen (there are no minimum counts)."""
+    from quansino.utils.moves import MoveStorage
+
+    rng = rng_for("C09ms", spec["seed"], spec["j"])
+    for i in range(spec["n"]):
+        cycles = int(rng.integers(3, 17))
+        names = [f"m{k}" for k in range(int(rng.integers(2, 6)))]
+        if rng.random() < 0.2:
+            names = [str(x) for x in rng.permutation(["", "0", "False", "a move with spaces", "None"])[: len(names)]]
+        weights = {nm: float(rng.choice([0.5, 1.0, 2.0, 5.0])) for nm in names}
+        seed = derive_seed("C09ms", spec["seed"], spec["j"], i)
+        kind = ["MonteCarlo", "Canonical", "GrandCanonical"][i % 3]
+        how = ["in-place", "add_move", "new-entry"][int(rng.integers(0, 3))]
+        what = ["one-to-zero", "all-but-one-to-zero"][int(rng.integers(0, 2))]
+        target = names[int(rng.integers(len(names)))]
+        zeroed = [target] if what == "one-to-zero" else [nm for nm in names if nm != target]
+        at_step, at_slot = int(rng.integers(0, 3)), int(rng.integers(0, cycles - 1))
+        wit = {"driver": kind, "cycles": cycles, "weights": weights, "changed": how, "what": what, "set_to_zero": zeroed, "at_step": at_step, "after_slot": at_slot, "seed": seed}
+        rec.evaluations += 1
+        rec.case("midstep", kind, how, what, len(names))
+        try:
+            mc = make_driver(kind, seed, cycles)
+            for nm in names:
+                mc.add_move(ProbeMove(), ProbeCriteria(), name=nm, interval=1, probability=weights[nm], minimum_count=0)
+            changed = False
+            for s, step in enumerate(mc.irun(at_step + 3)):
+                got = []
+                for k, nm in enumerate(step):
+                    got.append(str(nm))
+                    if changed and str(nm) in zeroed:
+                        rec.viol(f"C09/zero-weight-chosen/after-change-in-mid-step/{how}", f"move {str(nm)!r} was chosen for a free slot (step {s}, slot {k}) after its weight had been set to zero in mid-step ({how})", {**wit, "step": s, "slot": k})
+                    if changed:
+                        rec.count("slots_after_a_change_in_mid_step")
+                    if s == at_step and k == at_slot:
+                        for z in zeroed:
+                            if how == "in-place":
+                                mc.moves[z].probability = 0.0
+                            elif how == "add_move":
+                                mc.add_move(ProbeMove(), ProbeCriteria(), name=z, interval=1, probability=0.0, minimum_count=0)
+                            else:
+                                mc.moves[z] = MoveStorage(move=ProbeMove(), criteria=ProbeCriteria(), interval=1, probability=0.0, minimum_count=0)
+                        changed = True
+                        rec.count("tables_changed_in_mid_step")
+                if len(got) != cycles:
+                    rec.viol("C09/count/cycles", f"step attempted {len(got)} trials, configured cycles {cycles} (table changed in mid-step)", {**wit, "step": s})
+        except Exception as ex:  # noqa: BLE001
+            rec.viol(f"C09/raised/{type(ex).__name__}", f"changing a table in mid-step raised {type(ex).__name__}: {ex}", wit)
+        rec.sample(wit, cap=2)
+
+
 def run_guard(spec, rec):
     rng = rng_for("C09g", spec["seed"])
     for i in range(spec["n"]):
@@ -420,5 +478,5 @@ def run(spec):
 
     env.import_quansino()
     rec = Rec(spec["name"])
-    {"tables": run_tables, "dist": run_dist, "guard": run_guard, "retune": run_retune}[spec["mode"]](spec, rec)
+    {"tables": run_tables, "dist": run_dist, "guard": run_guard, "retune": run_retune, "midstep": run_midstep}[spec["mode"]](spec, rec)
     return rec.out()
